@@ -15,6 +15,7 @@ scripted schedules, and the end-to-end oracle on the real `gen_coords` (input .g
 -/
 import PolyplyVerif.Model.Supply
 import PolyplyVerif.Proofs.Supply
+import PolyplyVerif.Proofs.WalkGiveup
 
 namespace PolyplyVerif.C04
 open PolyplyVerif PolyplyVerif.Supply PolyplyVerif.Walk
@@ -74,6 +75,18 @@ theorem C04_supplied_invariant (cfg : Cfg) (mols : List Mol) (sched : List Bool)
     (run cfg mols sched (init mols)).eng j n = some v :=
   (sup_run sched _ (sup_init mols)).kept j m n v hm hig hs hb
 
+/-- **… also through the give-up branch of `_handle_random_walk`.**  With the branch
+`if step_count == self.maxiter` spelled out (`Walk.stepG`: after `maxiter + 1` failed attempts the call
+returns `False` and `_compose_system` starts over with the same molecule), for EVERY value of
+`BuildSystem.maxiter` and every schedule, a supplied residue that is not to be built holds exactly its
+supplied position at every reachable state: giving up removes the built residues only. -/
+theorem C04_supplied_invariant_giveup (cfg : Cfg) (bsMaxiter : Nat) (mols : List Mol) (sched : List Bool)
+    (j : Nat) (m : Mol) (n : Node) (v : Nat) (hm : mols[j]? = some m) (hig : m.ignored = false)
+    (hs : m.sup n = some v) (hb : m.isBuild n = false) :
+    (runG cfg bsMaxiter mols sched (initG mols)).sys.eng j n = some v := by
+  rw [Proofs.WalkGiveup.runG_sys]
+  exact C04_supplied_invariant cfg mols sched j m n v hm hig hs hb
+
 /-- … and this is what is written back to the molecules at the end, for ignored molecules too. -/
 theorem C04_supplied_written_back (cfg : Cfg) (mols : List Mol) (sched : List Bool)
     (j : Nat) (m : Mol) (n : Node) (v : Nat) (hm : mols[j]? = some m)
@@ -95,6 +108,9 @@ example : (run ⟨2, 80⟩ exMols [false, true, false, false] (init exMols)).eng
   C04_supplied_invariant _ _ _ 0 _ 1 900 rfl rfl (by decide) (by decide)
 /-- the schedule above abandons two attempts -/
 example : (run ⟨2, 80⟩ exMols [false, true, false, false] (init exMols)).phase = .walk ⟨0, 0, []⟩ := by decide
+/-- `maxiter = 0`: every abandoned attempt of the schedule above is a give-up (`False` returned three times) -/
+example : (runG ⟨2, 80⟩ 0 exMols [false, true, false, false] (initG exMols)).returns = [(0, false), (0, false), (0, false)] ∧
+    (runG ⟨2, 80⟩ 0 exMols [false, true, false, false] (initG exMols)).sys.eng 0 1 = some 900 := by decide
 example : gndxTable exMols 0 0 = [((0, 0), 0), ((0, 1), 1), ((0, 2), 2), ((0, 3), 3), ((2, 5), 4), ((2, 6), 5), ((2, 7), 6)] := by
   decide
 
